@@ -24,7 +24,9 @@ REQUIRED_CLASSES = ['metachar', 'multiword', 'store_number_mid', 'store_number_g
 
 WORDS = ['STARBUCKS', 'Netflix.com', 'UBER', 'EATS', 'AMZN', 'Mktp', 'US*1A2B3', 'WHOLEFDS', 'TRADER', "JOE'S", 'SHELL', 'OIL', 'COSTCO', 'WHSE', 'THE', 'HOME', 'DEPOT',
          'McDonald\'s', 'F12345', 'C++', 'A.B.', '(PARKING)', '[GARAGE]', 'R&D', '50%', 'PAY$', '^TOP', 'a|b', 'q?', '{x}', 'ab{2}', 'back\\slash', 'say"hi"', "it's", '日本', '☕',
-         'café'.replace('é', 'e'), 'T-MOBILE', 'AT&T', '7-ELEVEN', 'H&M', 'E*TRADE', '24', 'PAYMENT', 'THANK', 'YOU']
+         'café'.replace('é', 'e'), 'T-MOBILE', 'AT&T', '7-ELEVEN', 'H&M', 'E*TRADE', '24', 'PAYMENT', 'THANK', 'YOU',
+         # typographic quotes as banks print them (not the ASCII ' and ")
+         'MCDONALD\u2019S', 'LOWE\u2019s', '\u201cORIGINAL\u201d', '\u2018N\u2019', 'Caf\u00e9']
 SUFFIXES = ['', '', ' #1234', ' 00012345', ' WA', ' CA', ' 98101', ' SEATTLE WA', ' #12 SEATTLE WA', ' 1234567 800-555-1212 WA', ' DES:PAYROLL ID:99', ' ny', ' #4712A SEATTLE WA', ' #12-B']
 PREFIXES = ['', '', '', 'APLPAY ', 'SQ *', 'TST* ', 'TST*', 'SP ', 'PP*', 'GOOGLE *', 'sq *', 'Aplpay ']
 SEPS = [' ', ' ', ' ', '  ', '   ', ' - ', '*', ' #77 ', ' #4712A ', ' #12-B ', ' #1234/', ' #9', '#5 ']
@@ -44,7 +46,7 @@ def description(draw):
 
 # descriptions that are not built from the vocabulary at all: any printable text a statement cell can carry
 import string as _string
-FREE_ALPHABET = _string.ascii_letters + _string.digits + " .,*#&'\"()[]{}|?+^$\\/-_:;!@%=<>~`" + 'éÉßİıǅ日本☕\t\u00a0\u2009'
+FREE_ALPHABET = _string.ascii_letters + _string.digits + " .,*#&'\"()[]{}|?+^$\\/-_:;!@%=<>~`" + 'éÉßİıǅ日本☕\t\u00a0\u2009\u2019\u2018\u201c\u201d\u201e'
 free_description = st.text(alphabet=FREE_ALPHABET, min_size=1, max_size=30).map(lambda d: d.strip() or 'X')
 
 
